@@ -82,6 +82,10 @@ def gen(t, tier):
     sc['overlay'] = bool(t.chance(0.2))
     # (file backends) the tile manager is built by the configuration loader from a cache with refresh_before and two grids
     sc['via_loader'] = t.pick([None, None, None, 60, 3600]) if backend['type'] == 'file' else None
+    # how long the upstream takes: a millisecond of simulated time (every other runnable request gets to run while one
+    # waits for it), or no time at all (a request can be overtaken between its freshness check and its lock)
+    sc['up_latency'] = t.pick([0.001, 0.001, 0.0])
+    sc['policy'] = t.pick([['sticky', 0.3], ['sticky', 0.3], ['sticky', 0.05], ['random']])
     nops = t.randint(6, 18 if tier == 'quick' else 30)
     for _ in range(nops):
         k = t.weighted([('softfail', 2 if sc['overlay'] else 0), ('req', 8), ('adv', 5), ('thr', 3), ('touch', 1), ('upfail', 1), ('seed', 1), ('req2', 3),
@@ -195,7 +199,7 @@ def _run(sc, tape):
     from mapproxy.srs import SRS
 
     name = C.backend_name(sc['backend']) + ('-meta' if sc['meta_size'] != [1, 1] else '-single')
-    w = World(tape, policy=('sticky', 0.3), step_cap=400000, start_time=1.7e9 + sc['frac'])
+    w = World(tape, policy=tuple(sc.get('policy') or ('sticky', 0.3)), step_cap=400000, start_time=1.7e9 + sc['frac'])
     sched = w.sched
     clock = w.clock
     w.fs.mtime_res = sc.get('mtime_res')
@@ -209,7 +213,7 @@ def _run(sc, tape):
     faults = {}
 
     def plan(entry):
-        p = {'yields': 0, 'latency': 0.001, 'fail': upfail[0]}
+        p = {'yields': 0, 'latency': sc.get('up_latency', 0.001), 'fail': upfail[0]}
         if upfail[0]:
             faults['upstream_failure'] = faults.get('upstream_failure', 0) + 1
         return p
